@@ -227,8 +227,9 @@ fn run_hist(ts: &mut Toks) -> Option<String> {
                 match rt {
                     Some(rt) => match rt.compile(&text) {
                         Ok(e) => {
+                            // the compiled tree (with its offsets) is part of the observation
+                            obs.push(pr_ast_line(e.as_ast()));
                             exprs.insert(h, e);
-                            obs.push("OK".into())
                         }
                         Err(e) => {
                             exprs.remove(&h);
